@@ -216,6 +216,8 @@ func emptyStream(r *vh.Rng, n int, cv *vh.Cases, sum *vh.Summary, id *int) {
 			t = reflect.TypeOf(FixOmit{})
 			if r.Chance(1, 2) {
 				t = bigTypes[r.Intn(len(bigTypes))] // values larger than 1024 bytes
+			} else if r.Chance(1, 2) {
+				t = shapedTypes[r.Intn(len(shapedTypes))] // pointer-shaped values
 			}
 		default:
 			t = g.leaf()
@@ -225,6 +227,11 @@ func emptyStream(r *vh.Rng, n int, cv *vh.Cases, sum *vh.Summary, id *int) {
 		}
 		v := reflect.New(t).Elem()
 		fillVal(r, v, valOpts{quirks: true, iface: !safe}, 0)
+		term := coqVal(v)
+		if v.CanInterface() && v.Kind() != reflect.Interface && r.Chance(1, 3) {
+			// the same value, not addressable (as when it is encoded by value or out of an interface)
+			v = reflect.ValueOf(v.Interface())
+		}
 		var obs [4]bool
 		k := 0
 		for _, container := range []bool{false, true} {
@@ -234,7 +241,7 @@ func emptyStream(r *vh.Rng, n int, cv *vh.Cases, sum *vh.Summary, id *int) {
 			}
 		}
 		*id++
-		cv.Add(fmt.Sprintf("CEmpty %d %s %s %s %s %s %s %s", *id, coqB(safe), coqType(t), coqVal(v), coqB(obs[0]), coqB(obs[1]), coqB(obs[2]), coqB(obs[3])))
+		cv.Add(fmt.Sprintf("CEmpty %d %s %s %s %s %s %s %s", *id, coqB(safe), coqType(t), term, coqB(obs[0]), coqB(obs[1]), coqB(obs[2]), coqB(obs[3])))
 		sum.ModelCases++
 		sum.Count("empty."+t.Kind().String(), fmt.Sprintf("empty/%s/%s/%v", t.Kind(), quirkClass(v), obs))
 	}
@@ -353,7 +360,8 @@ func encStream(r *vh.Rng, n int, cv *vh.Cases, sum *vh.Summary, id *int) {
 		if r.Chance(1, 6) {
 			// the omitempty-focused corpus, with the memory shapes the emptiness tests treat differently
 			rt = []reflect.Type{reflect.TypeOf(FixOmit{}), reflect.TypeOf(FixOmitArr{}), reflect.TypeOf(FixOwnInfo{}),
-				reflect.TypeOf(FixBig{}), reflect.TypeOf(FixBigArr{}), reflect.TypeOf(FixBigAll{})}[r.Intn(6)]
+				reflect.TypeOf(FixBig{}), reflect.TypeOf(FixBigArr{}), reflect.TypeOf(FixBigAll{}),
+				reflect.TypeOf(FixPtrShaped{}), reflect.TypeOf(FixMapShaped{}), reflect.TypeOf(FixShapedOuter{}), reflect.TypeOf(FixShapedIn{})}[r.Intn(10)]
 			quirks = rt.NumField() > 5 || r.Bool()
 		}
 		v := reflect.New(rt).Elem()
@@ -369,6 +377,12 @@ func encStream(r *vh.Rng, n int, cv *vh.Cases, sum *vh.Summary, id *int) {
 			o := vh.Opts{"Canonical": true, "StructToArray": sta, "RecursiveEmptyCheck": rec}
 			h := handleFor(format, o)
 			got, err1 := encode(h, v.Addr().Interface())
+			// encoding the struct by value (not addressable) must give the same bytes as through a pointer
+			if got2, errv := encode(h, v.Interface()); err1 == nil && (errv != nil || !bytes.Equal(got, got2)) {
+				sum.FailC("enc", "enc:by-value-differs-from-by-pointer", "Encode(structValue) differs from Encode(&structValue)",
+					map[string]interface{}{"format": format, "type": rt.String(), "value": fmt.Sprintf("%+v", v.Interface()), "opts": o.String(), "build": buildName,
+						"by_pointer": vh.Hex(got), "by_value": vh.Hex(got2), "err_by_value": fmt.Sprint(errv), "seed_index": i})
+			}
 			asArray, keys, vals, quirk, kt := specEncoding(rt, v, sta)
 			cj := map[string]interface{}{"format": format, "type": rt.String(), "value": fmt.Sprintf("%+v", v.Interface()), "opts": o.String(), "build": buildName, "seed_index": i}
 			var want []byte
